@@ -42,6 +42,20 @@ func init() {
 	anchors["C04"] = []string{"core.XRefParser.ParseAllXRefs", "core.MergeXRefTables", "reader.Reader.GetObject", "reader.Reader.getCompressedObject",
 		"core.ObjectStream.GetObjectByIndex", "reader.Reader.ClearCache", "reader.Reader.ResolveDeep", "resolver.ObjectResolver.resolve",
 		"core.XRefParser.parseXRefStream", "core.XRefParser.parseTraditionalXRef"}
+	props["C10"] = propInfo{
+		level:     "exploration",
+		quickRuns: 4000, chunk: 50, thoroughS: 600, thoroughMax: 50000000,
+		rule: "run i draws a 2-6 page PDF from the independent writer (12%: a single-page HTML file for the handle part only) and a program of 3-25 calls over up to 8 handles: Open / FromReader roots, derived handles (Pages with any order, duplicates, 0, negatives, count+1; PageRange incl. reversed; the five option builders) from any existing handle incl. used ones, non-terminal PageCount / IsMultiColumn / IsCharacterLevel, terminal Text / Fragments / Lines / Document / Chunks / ToMarkdown, Close. 25% of the runs damage the file at rest (truncate, zero sector, bit flip) or replace it by a file-system object fault (directory, dangling symlink, empty file, /dev/null). Oracle: composition from the library's own single-page results of fresh handles, true source page numbers in the model and chunk metadata, error for out-of-range pages, and the descriptor ledger (/proc/self/fd entries on the document) equal to the model's open set after every call, with a double Close of everything at the end. Non-trivial = more than two calls; distinct = distinct program text + fault + format.",
+		assume: []string{
+			"what an explicitly empty selection (Pages() or a reversed range only) means is not stated by the property and is not judged",
+			"warnings are not part of the compared results",
+			"panics of PDF-only calls on other formats are property C02's subject and are not judged here",
+		},
+		simulated: []string{"call histories on shared base extractors and derived handles", "at-rest storage faults and kernel-provided file-system object faults", "the descriptor ledger's view of /proc/self/fd"},
+	}
+	anchors["C10"] = []string{"tabula.Extractor.resolvePages", "tabula.Extractor.clone", "tabula.ExtractOptions.clone", "tabula.Extractor.Text",
+		"tabula.Extractor.Document", "model.Document.AddPage", "tabula.Extractor.Close", "tabula.Extractor.ensureReader", "reader.Open",
+		"tabula.Extractor.Chunks", "tabula.Extractor.PageRange", "tabula.Extractor.Fragments"}
 	anchors["C03"] = []string{"contentstream.Parser.parseNext", "contentstream.Parser.parseOperator", "text.Extractor.RegisterFontsFromResources",
 		"rag.Exporter.collectCSVColumns", "layout.LineDetector.calculateAdaptiveTolerance", "tabula.Extractor.clone", "tabula.ExtractOptions.clone",
 		"core.Dict.String", "rag.flattenMetadata"}
